@@ -6,7 +6,7 @@ with real pyatv.conf.AppleTV / ManualService configurations, real Settings objec
 (attribute assignment = `mutate`), real BaseConfig.apply.
 
 A history is a list of JSON-able op descriptors
-  ["get", cfg] ["update", cfg] ["remove", h] ["mutate", h, path, val] ["save"] ["savefail"] ["load"]
+  ["get", cfg] ["update", cfg] ["remove", h] ["mutate", h, path, val] ["save"] ["savefail"] ["load"] ["loadfail", variant]
   ["scan", [cfg, ...], filter]   the real pyatv.scan(storage=…) with the scanner's discovery faked to return
                                  these configurations in this order; filter = None | [identifier, ...]
   ["connect", cfg] ["pair", cfg, proto]   the real pyatv.connect / pyatv.pair up to the first create_core()
@@ -576,6 +576,43 @@ def execute(kind, ops, loop):
                             oracle.mark(storage)       # nothing was written: save was a no-op (unchanged)
                         except OSError:
                             res = "ok"                 # model: nothing happens; the oracle keeps its snapshot
+                elif kind_op == "loadfail":
+                    # a load the storage must reject: the file is replaced, for the duration of the
+                    # call, by content that is not a supported storage model (it names a foreign
+                    # device with credentials, so anything taken over from it shows); then put back
+                    had = os.path.exists(path)
+                    keep = open(path, "rb").read() if had else None
+                    foreign = {"version": 1, "devices": [{"info": {"name": "foreign"}, "protocols": {
+                        "mrp": {"identifier": "FOREIGN-ID", "credentials": "foreign-creds"}}}]}
+                    variant = op[1]
+                    if variant == "version":
+                        text = json.dumps(dict(foreign, version=2))
+                    elif variant == "version0":
+                        text = json.dumps(dict(foreign, version=0))
+                    elif variant == "notjson":
+                        text = json.dumps(foreign)[:-7]
+                    else:
+                        text = json.dumps([foreign])
+                    with open(path, "w", encoding="utf-8") as fh:
+                        fh.write(text)
+                    try:
+                        loop.run_until_complete(storage.load())
+                        res = "accepted"
+                    except Exception:
+                        res = "ok"                     # model: a rejected load is inert
+                    finally:
+                        if had:
+                            with open(path, "wb") as fh:
+                                fh.write(keep)
+                        else:
+                            os.unlink(path)
+                    if res == "accepted":
+                        oracle.problem("roundtrip:rejected-load-accepted", variant, "load() raises",
+                                       "a file that is not a supported storage model was loaded")
+                    if any("FOREIGN-ID" in ids_of(o) for o in storage.settings):
+                        oracle.problem("lookup:rejected-load-replaced-devices", [ids_of(o) for o in storage.settings],
+                                       "the devices stored before the rejected load",
+                                       "a rejected load() replaced the stored devices by those of the rejected file")
                 elif kind_op == "load":
                     existed = kind == "file" and os.path.exists(path)
                     loop.run_until_complete(storage.load())
@@ -731,7 +768,7 @@ def gen_history(rng, kind, length):
                 ops.append(["pair", gen_cfg(rng), rng.choice(PROTOS)])
                 nobj += 1
         elif r < 0.95 and kind == "file":
-            ops.append(["savefail"])
+            ops.append(["savefail"] if rng.chance(0.5) else ["loadfail", rng.choice(["version", "version0", "notjson", "notmodel"])])
         else:
             ops.append(["load"])
             nobj += 2
@@ -750,6 +787,12 @@ def fixed_histories():
         # undeclared password extras, empty and unicode values, save / savefail / load
         [["update", [["Companion", "", UNI, "pw"], ["MRP", None, "", UNI]]], ["save"], ["mutate", 0, "info.name", UNI],
          ["savefail"], ["mutate", 0, "protocols.raop.timing_port", 7000], ["save"], ["load"], ["mutate", 1, "info.name", ""], ["save"]],
+        # a rejected load (unsupported version / broken file) between uses of stored devices: objects,
+        # `changed` and the next save are those of the history without it
+        [["get", a], ["save"], ["loadfail", "version"], ["get", [["MRP", A0, None, None]]], ["save"], ["load"]],
+        [["get", a], ["loadfail", "version0"], ["save"], ["loadfail", "notjson"], ["mutate", 0, "info.name", "x"],
+         ["loadfail", "notmodel"], ["save"], ["load"], ["get", [["AirPlay", A1, None, None]]]],
+        [["loadfail", "version"], ["get", [["MRP", C0, "k", None]]], ["save"], ["loadfail", "version"], ["load"]],
         # removal is by content
         [["get", [["MRP", C0, "k", None]]], ["save"], ["load"], ["remove", 0], ["get", [["MRP", C0, None, None]]], ["save"]],
         # boundary: the storage becomes empty again — the last devices are removed, saved, reloaded
@@ -926,7 +969,7 @@ def run(ctx, only=None):
     cases = []
     for h in fixed_histories():
         cases.append(("file", h))
-        cases.append(("memory", [op for op in h if op[0] != "savefail"]))
+        cases.append(("memory", [op for op in h if op[0] not in ("savefail", "loadfail")]))
     rng = ctx.rng.fork("histories")
     for i in range(ctx.scale(500, 5000)):
         kind = "file" if i % 3 else "memory"
